@@ -237,6 +237,24 @@ def k_unit(ctx, name, seed, suffix_cls):
     # a mutable buffer handed in must not alias what is later changed
     ok, got2 = attempt(lambda: obs(dec(bytearray(u + s))))
     ctx.check("suffix_non_interference", ok and got2 == base, "decode_differs_bytearray", name, case, unit=u, suffix=s)
+    redzone_probe(ctx, name, dec, obs, u, s)
+
+
+def redzone_probe(ctx, name, dec, obs, u, s):
+    """Localising only: which offsets does the decoder dereference when octets follow the unit?"""
+    from spverif.san.redzone import RedZone, Log
+    from spverif.core import repo as repo_mod
+    import os
+    log = Log(len(u), os.path.abspath(repo_mod.REPO).rstrip("/") + "/")
+    try:
+        obs(dec(RedZone(u + s, log)))
+        outcome = "beyond_declared_length" if log.max_end > len(u) else "within_declared_length"
+    except Exception as e:  # noqa: BLE001 - the red-zone object is not a real bytes object
+        outcome = f"probe_not_applicable:{type(e).__name__}"
+    ctx.table(f"redzone/{name}", outcome)
+    if log.beyond:
+        for a, b, site in log.beyond[:2]:
+            ctx.note(f"redzone: {name} dereferenced offsets >= declared length at {site}")
 
 
 def _which(a, b):
